@@ -202,8 +202,12 @@ pub fn run_history(tape: &[u32], st: &mut Stats, cfg: &HistCfg) -> Result<HistOu
         let tree = gen_tree(&mut t, &table, pool.names.len(), &tcfg);
         let (text, _, _) = render(&tree, &table, &pool, &RenderCfg::default(), &mut t);
         let text: &'static str = leak(text);
-        w.history.push(format!("parse `{text}`"));
-        let parsed = guard(|| -> Result<(F, D<'static>), String> { Ok((ex_msg(F::parse(text))?, ex_msg(D::parse(text))?)) });
+        // a quarter of the flat lineages start from an unfolded flat expression
+        let wo = t.chance(25);
+        w.history.push(if wo { format!("parse `{text}` (flat: parse_wo_compile)") } else { format!("parse `{text}`") });
+        let parsed = guard(|| -> Result<(F, D<'static>), String> {
+            Ok((if wo { ex_msg(F::parse_wo_compile(text))? } else { ex_msg(F::parse(text))? }, ex_msg(D::parse(text))?))
+        });
         let (f, d) = match parsed {
             Err(p) => return Err(fail(&format!("{prop}/parse-panic"), format!("`{text}` panics: {p}"), w.describe())),
             Ok(Err(e)) => return Err(fail(&format!("{prop}/parse-error"), format!("well-formed `{text}` rejected: {e}"), w.describe())),
